@@ -312,6 +312,7 @@ def rule_deps(ctx):
     c20.rule_a(ctx)
     c20.rule_b(ctx)
     c08.rule_c(ctx)
+    c08.rule_wrappers(ctx)
 
 
-RULES.append(("C10.k", "queue order (C20.a/b) and rejection of null periods (C08.c)", rule_deps))
+RULES.append(("C10.k", "queue order (C20.a/b), rejection of null periods (C08.c), public methods forward deadline and period unchanged (C08.g)", rule_deps))
